@@ -193,6 +193,9 @@ def asg_structural_contracts():
                 elif fn == 'to_stmt' and re.search(r'\(\s*self\s*\)\s*->\s*Stmt\s*$', sig) and len(variants.get(ty, [])) == 1:
                     vn, boxed = variants[ty][0]
                     out[q] = dict(ret='r', props=['C06', 'C08', 'C09'], spec='ensures r == Stmt::%s(%s),                             //@C06:statement-kind' % (vn, 'Box::new(self)' if boxed else 'self'))
+                elif fn.startswith('num_') and fn[4:] in fs and normalise_code(fs[fn[4:]]).startswith('Option<Vec<') and re.search(r'\(\s*&self\s*\)\s*->\s*usize\s*$', sig):
+                    # `num_F(&self) -> usize` of an `Option<Vec<T>>` field F: the length of the list, 0 when there is none
+                    out[q] = dict(ret='r', props=['C06', 'C08', 'C09'], spec='ensures r == (match self.%s { Some(v) => v@.len(), None => 0 }),                             //@C06:accessor-returns-field' % fn[4:])
                 elif fn in fs:
                     am = re.search(r'\(\s*&self\s*\)\s*->\s*&\s*([\w:<>\[\] ,]+)$', sig)
                     if am and not am.group(1).startswith('[') and am.group(1) != 'str' and normalise_code(am.group(1)) == normalise_code(fs[fn]):
@@ -210,6 +213,8 @@ def asg_structural_contracts():
                             out[q] = dict(ret='r', props=['C06', 'C08', 'C09'], spec='ensures r@ == self.%s@,%s' % (fn, TAGF))
                         elif mo and fty == 'Option<%s>' % normalise_code(mo.group(1)):
                             out[q] = dict(ret='r', props=['C06', 'C08', 'C09'], spec='ensures (r is Some) == (self.%s is Some), r is Some ==> *r->Some_0 == self.%s->Some_0,%s' % (fn, fn, TAGF))
+                        elif mo and re.fullmatch(r'\[(.+)\]', normalise_code(mo.group(1))) and fty == 'Option<Vec<%s>>' % re.fullmatch(r'\[(.+)\]', normalise_code(mo.group(1))).group(1):
+                            out[q] = dict(ret='r', props=['C06', 'C08', 'C09'], spec='ensures (r is Some) == (self.%s is Some), r is Some ==> r->Some_0@ == self.%s->Some_0@,%s' % (fn, fn, TAGF))
                         elif rty == '&str' and fty == 'String':
                             out[q] = dict(ret='r', props=['C06', 'C08', 'C09'], spec='ensures r@ == self.%s@,%s' % (fn, TAGF))
                         elif rty == fty and rty in ('usize', 'bool', 'u32', 'u128', 'u64'):
